@@ -71,7 +71,7 @@ def answer (ws : List String) : String :=
   else
     let n := kinds.length
     let pend := (List.range n).map fun i => (⟨i, false⟩ : Pending)
-    let rounds := clMulti false e (!cache) retryable (e.closed 0) (e.ctxDone 0) (total scripts + 1) pend scripts 1
+    let rounds := clMulti true e (!cache) retryable (e.closed 0) (e.ctxDone 0) (total scripts + 1) pend scripts 1
     let evs := rounds.flatten
     let parts := (List.range n).map fun i =>
       let mine := evs.filter fun (j, _, _, _) => j == i
